@@ -214,6 +214,7 @@ META["C20"] = dict(
         "mon.restricted_number.parser.argv": g(300, 8000),
         "mon.restricted_number.parser.config": g(300, 8000),
         "st.number.accepted": g(200, 5000), "st.number.rejected": g(200, 5000),
+        "st.number.instance_of_other_restricted_type": g(300, 6000), "st.string.instance_of_other_restricted_type": g(20, 60),
         "mon.restricted_string.cast": g(100, 300),
         "st.string.accepted": g(30, 60), "st.string.rejected": g(50, 150),
         "mon.registered.config_roundtrip": g(400, 4000),
@@ -548,7 +549,7 @@ META["C19"] = dict(
     "different directories (decoys with the same relative names in the process cwd), referring to each other and to Path_fr, "
     "List[Path_fr], dataclass and inner-parser sub-files relatively, via --cfg / parse_path / default_config_files, with a "
     "failure planted at a chosen depth; cwd before == after."
-    " Part B also: the first config reached through a symbolic link to its directory; 'key+' append entries with relative paths; a plain-line list file named on argv by relative / dot-relative / parent-relative / absolute path; the relative spelling of an argument's Path default given from a directory where it leads nowhere. Part A also compares Path with the registered path_type of the same mode inside a parser.",
+    " Part B also: the first config reached through a symbolic link to its directory; 'key+' append entries with relative paths; a plain-line list file named on argv by relative / dot-relative / parent-relative / absolute path; the relative spelling of an argument's Path default given from a directory where it leads nowhere; both error channels (ArgumentError and usage + SystemExit 2) for the planted failure, and after every failed parse a relative path given to a fresh parser must resolve against the process cwd. Part A also compares Path with the registered path_type of the same mode inside a parser.",
     level_note="Trusted: the oracle's reading of each flag; FIFO with r/w/c flags and creating through a dangling symlink are "
     "'unspecified'. URL/fsspec flags are not exercised (no network). If the capability drop is refused the negative-permission "
     "sub-space is not observed and the gate on permission_bits_enforced makes the run INCONCLUSIVE.",
@@ -559,6 +560,7 @@ META["C19"] = dict(
     "by hash; every case is non-trivial (a decision is judged or logged as unspecified).",
     gates={
         "mon.group_config_in_subcommand_section": g(100, 1000), "mon.list_file_on_argv": g(100, 1000),
+        "mon.relative_path_after_failed_parse": g(80, 800), "st.nested.exit_on_error.failing": g(30, 300),
         "st.nested.config_dir_through_symlink": g(300, 3000), "st.nested.append_key_with_relative_paths": g(100, 1000),
         "mon.path_type_in_parser_checks": g(500, 5000),
         "mon.path_mode_checks": g(10000, 50000), "st.accept": g(500, 5000), "st.reject": g(5000, 40000),
@@ -608,7 +610,7 @@ META["C08"] = dict(
     "read-only operations, no putenv). Freshness: two instantiate_classes calls on one configuration (explicit specs, "
     "lazy_instance defaults, lists / dicts / tuples of classes, nested holders, class groups) must share no instance and "
     "construct equally often. Config files reached through symlinked directories, valid and failing."
-    " Also: a default config file giving values for arguments declared without default (format_help / get_defaults must leave the declared defaults alone); arguments with nargs (typed and plain-callable types) and JSON-schema arguments whose schema has defaults; a lazy default instance that the program starts using between parses.",
+    " Also: a default config file giving values for arguments declared without default (format_help / get_defaults must leave the declared defaults alone); arguments with nargs (typed and plain-callable types) and JSON-schema arguments whose schema has defaults; a lazy default instance that the program starts using between parses; a blank (empty / comment-only) default config file with argv items that write below branch-valued declared defaults (class spec, lazy instance, list, dataclass), followed by a defaults-only parse; jsonargparse Path objects whose recorded cwd is not the process working directory given to parse_path and save.",
     level_note="Trusted: the snapshot function. Aliasing between a result and parser defaults is not judged.",
     shards=g(4, 16),
     budget=g(45, 300),
@@ -616,7 +618,9 @@ META["C08"] = dict(
     rule="a case is (multiset of argument type skeletons) for generated parsers, (set of class features) for the class parser, "
     "(path spelling, entry method, validity) for symlinked configs; distinct by hash; each runs 10-20 monitored calls.",
     gates={
-        "st.list_valued_and_schema_arguments": g(40, 400),
+        "st.list_valued_and_schema_arguments": g(40, 400), "st.blank_default_config_file": g(40, 400),
+        "mon.parse_after_writing_below_branch_defaults": g(60, 600), "mon.path_object_with_foreign_cwd": g(30, 300),
+        "st.failing_config_parse_with_exit_on_error": g(5, 50),
         "st.parser_with_default_config_file": g(30, 300), "mon.lazy_default_instance_used": g(30, 300),
         "mon.calls_snapshotted": g(3000, 40000), "mon.accepted_configs": g(100, 1500), "mon.instantiate_pairs": g(100, 1500),
         "mon.instances_checked": g(500, 8000), "mon.merge_config_class_change": g(100, 1500), "mon.symlinked_config_parses": g(80, 1000),
